@@ -6,12 +6,15 @@ package ioproxy
 // calls(x) counts the method calls GoVC sees on the opaque value x (here: Close) and the calls of a
 // function value; spawned(f) counts goroutines started with f. Byte transport ("every byte in order")
 // is io.CopyBuffer's contract and is assumed, not proved. A function value and a stream are different
-// objects (cb != s1, cb != s2): GoVC keeps all reference-like values in one sort, so this is stated.
+// The copy buffer handed to io.CopyBuffer is non-empty and was allocated by this invocation (ownbuf): the two
+// pumps of a pair never copy through the same array. objects (cb != s1, cb != s2): GoVC keeps all reference-like values in one sort, so this is stated.
 //
 //@ func proxyTo
 //@   props C20
 //@   requires s1 != nil && s2 != nil && cb != s1 && cb != s2
 //@   modifies ghost:calls, ghost:calltime, time, alloc, elems(byte)
+//@   assert call CopyBuffer: direction: arg0 == s2 && arg1 == s1
+//@   assert call CopyBuffer: ownbuf: len(arg2) > 0 && fresh(arr(arg2)) && allocated(arr(arg2))
 //@   ensures closeboth: s1 != s2 ==> calls(s1) == old(calls(s1)) + 1 && calls(s2) == old(calls(s2)) + 1
 //@   ensures callback: cb != nil ==> calls(cb) == old(calls(cb)) + 1
 //
